@@ -1,6 +1,7 @@
 import DaskModel.Model.Structural
 import DaskModel.Lemmas.StructuralLemmas
 import DaskModel.Lemmas.PadLemmas
+import DaskModel.Lemmas.ShufflePlanLemmas
 import DaskModel.Generated.ChunkTolerance
 /-!
 # C24 — structural array operations equal NumPy (theorems)
@@ -250,5 +251,158 @@ theorem reshape_merge_ones_den {α} (cc : List Nat) (rows : List (List α)) (h :
   reshape_merge_ones_aux cc rows h
 
 example : reshapeMergeOnesBlocks [2, 1] [[1, 2, 3], [4, 5, 6]] = [[1, 2], [3], [4, 5], [6]] := by rfl
+
+
+/-! ### `_shuffle` as a whole: validation, the "already shuffled" shortcut, grouping, per-chunk plans; `slicing.take`
+
+The shortcut `return chunks, {}` makes `shuffle` hand back the *input array*; it is right exactly when the indexer is
+the identity chunking of the axis. `shuffle_noop_iff_identity` says the test the code performs
+(`len(indexer) == len(chunks[axis])` and every group `== list(range(ctr, ctr + c))`) is that and nothing weaker. -/
+
+theorem shuffle_noop_iff_identity (old : List Nat) (indexer : List (List Nat)) :
+    alreadyShuffled old indexer = true ↔ indexer = identityIndexer old := alreadyShuffled_iff old indexer
+
+theorem shuffle_plan_noop_only_identity {old : List Nat} {indexer t : List (List Nat)} {limit tn td : Nat}
+    (h : shufflePlan old indexer limit tn td = .ok (true, t)) : indexer = identityIndexer old ∧ t = indexer := by
+  unfold shufflePlan at h
+  split at h
+  · cases h
+  · split at h
+    · rename_i ha
+      injection h with h; injection h with _ h2
+      exact ⟨(alreadyShuffled_iff old indexer).1 ha, h2.symm⟩
+    · split at h
+      · cases h
+      · injection h with h; injection h with h1 _; cases h1
+
+theorem shuffle_blocks_den {α} [Inhabited α] (old : List Nat) (xs : List α) (indexer : List (List Nat))
+    (limit tn td : Nat) (bs : List (List α)) (hx : xs.length = sum old)
+    (h : shuffleBlocks old (splitBy old xs) indexer limit tn td = .ok bs) :
+    bs.flatten = indexer.flatten.map (fun g => xs.getD g default) ∧
+    bs.map List.length = (if alreadyShuffled old indexer then old
+                          else (packGroups limit tn td [] indexer).map List.length) := by
+  unfold shuffleBlocks shufflePlan at h
+  split at h
+  · cases h
+  · rename_i noop hplan
+    split at hplan
+    · cases hplan
+    · rename_i hv
+      obtain ⟨_, _, hlt⟩ := validate_ok_mem hv
+      split at hplan
+      · rename_i ha
+        injection hplan with hplan; injection hplan with h1 _
+        injection h with h; subst h
+        have hid := (alreadyShuffled_iff old indexer).1 ha
+        refine ⟨?_, by simp [ha, splitBy_lengths old xs hx]⟩
+        rw [splitBy_flatten_s old xs hx, hid, identityIndexer_flatten, ← hx]
+        exact self_eq_map_range xs
+      · split at hplan
+        · cases hplan
+        · injection hplan with hplan; injection hplan with h1 _; cases h1
+  · rename_i takers hplan
+    split at hplan
+    · cases hplan
+    · rename_i hv
+      obtain ⟨_, _, hlt⟩ := validate_ok_mem hv
+      split at hplan
+      · injection hplan with hplan; injection hplan with h1 _; cases h1
+      · rename_i ha
+        split at hplan
+        · cases hplan
+        · injection hplan with hplan; injection hplan with _ h2
+          injection h with h; subst h; subst h2
+          have hfl := (packGroups_flatten limit tn td indexer []).1
+          simp only [List.nil_append] at hfl
+          have hmem : ∀ T ∈ packGroups limit tn td [] indexer, ∀ g ∈ T, g < sum old := by
+            intro T hT g hg
+            have : g ∈ (packGroups limit tn td [] indexer).flatten := List.mem_flatten.2 ⟨T, hT, hg⟩
+            rw [hfl] at this
+            obtain ⟨G, hG, hgG⟩ := List.mem_flatten.1 this
+            exact hlt G hG g hgG
+          constructor
+          · rw [← hfl, List.map_flatten]
+            congr 1
+            apply List.map_congr_left
+            intro T hT
+            rw [shuffleChunkCode_eq, shuffle_den old xs T (hmem T hT)]
+          · simp only [ha, Bool.false_eq_true, if_false, List.map_map]
+            apply List.map_congr_left
+            intro T hT
+            simp only [Function.comp]
+            rw [shuffleChunkCode_eq, shuffle_den old xs T (hmem T hT)]
+            simp
+
+
+theorem shuffle_blocks_total {α} [Inhabited α] (old : List Nat) (blocks : List (List α)) (indexer : List (List Nat))
+    (limit tn td : Nat) (hv : validateIndexer old indexer = .ok ()) (ho : old ≠ []) :
+    ∃ bs, shuffleBlocks old blocks indexer limit tn td = .ok bs := by
+  unfold shuffleBlocks shufflePlan
+  rw [hv]
+  simp only [ho, if_false]
+  by_cases ha : alreadyShuffled old indexer = true
+  · simp [ha]
+  · simp [ha]
+
+theorem take_den {α} [Inhabited α] (old : List Nat) (xs : List α) (index : List Nat) (limit tn td : Nat)
+    (bs : List (List α)) (hx : xs.length = sum old)
+    (h : takeBlocks old (splitBy old xs) index limit tn td = .ok bs) :
+    bs.flatten = index.map (fun g => xs.getD g default) := by
+  unfold takeBlocks at h
+  split at h
+  · rename_i hc
+    obtain ⟨_, hl, har⟩ := hc
+    injection h with h; subst h
+    rw [splitBy_flatten_s old xs hx]
+    unfold isArange at har
+    have har : index = List.range index.length := by simpa using har
+    rw [har, hl, ← hx]
+    exact self_eq_map_range xs
+  · split at h
+    · cases h
+    · have hk : 0 < averageChunk old := by unfold averageChunk; omega
+      have := (shuffle_blocks_den old xs _ limit tn td bs hx h).1
+      rw [chunkEvery_flatten _ hk index.length index (Nat.le_refl _)] at this
+      exact this
+
+theorem take_total {α} [Inhabited α] (old : List Nat) (blocks : List (List α)) (index : List Nat) (limit tn td : Nat)
+    (ho : old ≠ []) (hi : index ≠ []) (hlt : ∀ i ∈ index, i < sum old) :
+    ∃ bs, takeBlocks old blocks index limit tn td = .ok bs := by
+  unfold takeBlocks
+  split
+  · exact ⟨_, rfl⟩
+  · have hk : 0 < averageChunk old := by unfold averageChunk; omega
+    apply shuffle_blocks_total _ _ _ _ _ _ _ ho
+    unfold validateIndexer
+    have hne := chunkEvery_ne_nil _ hk index.length index
+    have hfl := chunkEvery_flatten _ hk index.length index (Nat.le_refl _)
+    have h1 : ¬ (chunkEvery (averageChunk old) index.length index = [] ∨ [] ∈ chunkEvery (averageChunk old) index.length index) := by
+      intro h
+      rcases h with h | h
+      · rw [h] at hfl; exact hi (by simpa using hfl.symm)
+      · exact hne [] h rfl
+    rw [if_neg h1]
+    have h2 : ¬ ((chunkEvery (averageChunk old) index.length index).any (fun g => g.any (fun i => decide (sum old ≤ i))) = true) := by
+      simp only [List.any_eq_true, decide_eq_true_eq, not_exists, not_and]
+      intro g hg i hig
+      have : i ∈ (chunkEvery (averageChunk old) index.length index).flatten := List.mem_flatten.2 ⟨g, hg, hig⟩
+      rw [hfl] at this
+      have := hlt i this
+      omega
+    rw [if_neg h2]
+
+example : alreadyShuffled [4, 4, 4] [[0, 1, 2, 3], [4, 5, 6, 7], [8, 9, 10, 11]] = true := by decide
+/-- the seeded near-misses: first and last element of every group in place / same set per chunk -/
+example : alreadyShuffled [4, 4, 4] [[0, 2, 1, 3], [4, 5, 6, 7], [8, 10, 9, 11]] = false := by decide
+example : alreadyShuffled [2, 2] [[0, 2], [1, 3]] = false := by decide
+example : alreadyShuffled [2, 2] [[0, 1], [2, 3], [0]] = false := by decide
+example : alreadyShuffled [3, 1] [[0, 1], [2, 3]] = false := by decide
+example : validateIndexer [2, 3] [[4, 0], [4, 2]] = .ok () := by decide
+example : (shuffleBlocks [2, 3] (splitBy [2, 3] [10, 11, 12, 13, 14]) [[4, 0], [4, 2]] 3 5 4 : Except ShErr (List (List Nat)))
+    = .ok [[14, 10], [14, 12]] := by decide
+example : (takeBlocks [2, 2] (splitBy [2, 2] [10, 11, 12, 13]) [0, 2, 1, 3] 2 5 4 : Except ShErr (List (List Nat)))
+    = .ok [[10, 12], [11, 13]] := by decide
+example : (takeBlocks [2, 2] (splitBy [2, 2] [10, 11, 12, 13]) [0, 1, 2, 3] 2 5 4 : Except ShErr (List (List Nat)))
+    = .ok [[10, 11], [12, 13]] := by decide
 
 end Dask.C24
